@@ -44,6 +44,8 @@ DECIDES = ('C18-INT: for every format-spec shape, if CIntLike._parse_format acce
            'C18-LAYOUT: the tail of that function + __Pyx_PyUnicode_BuildFromAscii (both #if branches) produce, for every class of (signedness, sign class of the value incl. -1/0, one digit / '
            'n digits, excess zero, width absolute 0/1 or n-1..n+6, padding space/0), exactly [spaces][-]digits resp. [-][zeros]digits of total length max(width, digits+sign), every cell '
            'written, nothing outside the allocation, allocated as ASCII. '
+           "C18-CHRRANGE: the range guard of the 'c' format (__Pyx_uchar_{{TO_PY_FUNCTION}} + __Pyx_CheckUnicodeValue) accepts exactly 0..0x10FFFF and raises OverflowError otherwise, for "
+           'signed/unsigned 1/2/4/8-byte types: truth table over the interval classes of every literal, every single bit, every literal with one bit flipped and both ends of every plane. '
            'C18-CHRPAD: __Pyx_PyUnicode_FromOrdinal_Padded gives padding*(width-1)+chr(value) for every class of code points (all constants of the function and the UTF-8/Latin-1/surrogate '
            'boundaries) x width classes around its limits: stack buffer bounds, surrogates never through the UTF-8 decoder, encoded bytes == RFC 3629 bit slices (bit-vector domain). '
            'C18-JOINC: __Pyx_PyUnicode_Join for all 8 or-combinations of kinds: canonical allocation (max_char table + clamp), memcpy offset/size scaled by the character size, '
@@ -61,7 +63,6 @@ DECIDES = ('C18-INT: for every format-spec shape, if CIntLike._parse_format acce
            "selection on non-zero; return code -> str(None); external typedef passes itself as name_type. C18-STRSEL: a non-converting str() helper only on statically-str paths.")
 NOT_DECIDED = ('the digits themselves beyond the step relations (C18-LAYOUT takes the digit run as opaque and relies on the loop summary established by C18-DIGITS); the text produced by '
                'PyOS_double_to_string / PyObject_Format themselves; the character-by-character fallback of __Pyx_PyUnicode_Join (no _PyUnicode_FastCopyCharacters) and its overflow checks; '
-               "the range guard of the 'c' format (rule C18-CHRRANGE is written but not registered: pending finding FINDING_C18_1 - on the unmodified tree every value >= 2**21 passes the guard); "
                'which adjacent literals simplify_JoinedStrNode merges (contents of node lists: needs relational reasoning about sequences, no engine for it); which operands the f-string '
                'de-duplication may share beyond the key (is_name/is_simple: how often an expression is evaluated is decided under C20, and whether a value changes between two uses is a '
                'run-time property); the width limit 2**30 of can_coerce_to_pystring; invalid %-templates (a "-" after the '
@@ -191,7 +192,7 @@ def run(ctx):
     fmt_chars = {d.get('type') or 'd' for d in accepted} & set(s4C18.BASE_OF) or None
     # C18-ASCII (shared file): floor 0 here - when the type-character test disappears altogether the obligation is decided by C18-JOINPY:kind-accounting,
     # which reports the unguarded path instead of ending in ANALYSIS-ERROR.
-    # s4C18.rule_chrrange is NOT registered:  # pending finding  (FINDING_C18_1: the range guard of the 'c' format lets every value >= 2**21 through)
+    # s4C18.rule_chrrange: registered since FINDING_C18_1 was repaired (a3e04b332); round 9 added the per-bit classes of the guard's masks (seed C18n)
     return [r_int, pC18.rule_chr(ctx, accepted), pC18.rule_dbl(ctx), pC18.rule_call(ctx), r_i5, pC18.rule_fmtfn(ctx),
             pC18.rule_trn(ctx), pC18.rule_conv(ctx), pC18.rule_key(ctx), fmtascii.rule_ascii(ctx, floor=0),
             sC18.rule_memo(ctx), sC18.rule_strnone(ctx), s4C18.rule_chrrange(ctx),
